@@ -106,12 +106,16 @@ inductive XErr | wrongArgs | unterminated | joining | badDefine | hashhash | err
 /-- deviations of simplecpp from the standard that the model reproduces; `Quirks.code` = the code as it is, `Quirks.std` = none -/
 structure Quirks where
   vaComma : Bool       -- a `,` before an empty `__VA_ARGS__` that is followed by `)` is dropped (Macro::expandToken)
-  stringSpace : Bool   -- `#`: no space after an operator made by combineOperators (its whitespaceahead flag is that of its first character)
+  stringSpace : Bool   -- `#`: no space after an operator made by combineOperators (its whitespaceahead flag is that of its first
+                       -- character) and after a string literal made by an inner `#`
   elifEval : Bool      -- the condition of `#elif` is evaluated although an earlier group of the section was taken
+  pasteBlue : Bool     -- the tokens of a multi-token argument next to `##` that are not pasted are not rescanned
   deriving DecidableEq, Repr
 
-def Quirks.code : Quirks := ⟨true, true, true⟩
-def Quirks.std : Quirks := ⟨false, false, false⟩
+def Quirks.code : Quirks := ⟨true, true, true, true⟩
+def Quirks.std : Quirks := ⟨false, false, false, false⟩
+
+def paint (q : Quirks) (l : List XTok) : List XTok := if q.pasteBlue then l.map fun t => { t with blue := true } else l
 
 def lookup (ms : List Macro) (n : Tok) : Option Macro := ms.find? (·.name == n)
 
@@ -201,7 +205,7 @@ def isCombinedOp (t : Tok) : Bool :=
 def spell (q : Quirks) : List XTok → List Char
   | [] => []
   | [t] => t.s
-  | t :: r => t.s ++ (if q.stringSpace && isCombinedOp t.s then [] else [' ']) ++ spell q r
+  | t :: r => t.s ++ (if q.stringSpace && (isCombinedOp t.s || t.s.head? == some '"') then [] else [' ']) ++ spell q r
 
 /-- `#`: the spelling of the argument, tokens separated by one space (the generated sources separate tokens by one space),
 with `"` and `\` escaped as `escapeString` does -/
@@ -238,8 +242,8 @@ def subst (q : Quirks) (fn : Bool) (ps : List Tok) (raw exp : List (List XTok)) 
             | none => [⟨r, false⟩]
           match out, rhs with
           | l :: out', x :: xs =>
-            if pasteOk l.s x.s then subst q fn ps raw exp rest'' (xs.reverse ++ ⟨l.s ++ x.s, false⟩ :: out') else none
-          | _ :: _, [] => subst q fn ps raw exp rest'' out
+            if pasteOk l.s x.s then subst q fn ps raw exp rest'' ((paint q xs).reverse ++ ⟨l.s ++ x.s, false⟩ :: out') else none
+          | _ :: _, [] => none          -- placemarker operand: outside the fragment
           | [], _ => none
         | [] => none
       else if fn then
@@ -251,7 +255,10 @@ def subst (q : Quirks) (fn : Bool) (ps : List Tok) (raw exp : List (List XTok)) 
       match argOf ps raw t, argOf ps exp t with
       | some r, some e =>
         -- operand of a following `##`: not macro replaced
-        if nextIsPaste (h :: rest') then (if r.isEmpty then none else subst q fn ps raw exp (h :: rest') (r.reverse ++ out))
+        if nextIsPaste (h :: rest') then
+          (match r.reverse with
+           | [] => none
+           | last :: init => subst q fn ps raw exp (h :: rest') (last :: (paint q init.reverse).reverse ++ out))
         else if q.vaComma && t == tokS "__VA_ARGS__" && e.isEmpty && h == [')'] && (match out with | c :: _ => c.s == [','] | [] => false)
           then subst q fn ps raw exp (h :: rest') out.tail
         else subst q fn ps raw exp (h :: rest') (e.reverse ++ out)
@@ -448,6 +455,62 @@ def ifElse (st : IfStack) : IfStack :=
   | [] => []
   | s :: r => (if s == .elseIsTrue then .tru else .alwaysFalse) :: r
 
+/-- lines whose conditions are already evaluated: the part of the directive loop that decides inclusion -/
+inductive CLine | text (n : Nat) | ifc (c : Bool) | elifc (c : Bool) | els | endif
+  deriving DecidableEq, Repr
+
+/-- the `ifstates` machine on such lines: the included text lines; `none` = `#elif/#else/#endif without #if` -/
+def runC : IfStack → List CLine → Option (List Nat)
+  | _, [] => some []
+  | st, .text n :: r => (runC st r).map fun l => if top st == .tru then n :: l else l
+  | st, .ifc c :: r => runC (ifOpen st c) r
+  | st, .elifc c :: r => if st.isEmpty then none else runC (ifElif st c) r
+  | st, .els :: r => if st.isEmpty then none else runC (ifElse st) r
+  | st, .endif :: r => if st.isEmpty then none else runC st.tail r
+
+/- the group structure of 6.10.1: an if-section is an if-group, elif-groups, an optional else-group -/
+mutual
+inductive Item
+  | text (n : Nat)
+  | sect (c : Bool) (body : Items) (tail : Tail)
+inductive Items
+  | nil
+  | cons (i : Item) (r : Items)
+inductive Tail
+  | endif
+  | els (body : Items)
+  | elif (c : Bool) (body : Items) (tail : Tail)
+end
+
+mutual
+def Item.flat : Item → List CLine
+  | .text n => [.text n]
+  | .sect c body tail => .ifc c :: (body.flat ++ tail.flat)
+def Items.flat : Items → List CLine
+  | .nil => []
+  | .cons i r => i.flat ++ r.flat
+def Tail.flat : Tail → List CLine
+  | .endif => [.endif]
+  | .els body => .els :: (body.flat ++ [.endif])
+  | .elif c body tail => .elifc c :: (body.flat ++ tail.flat)
+end
+
+/- 6.10.1p6: the conditions of an if-section are checked in order, the first group whose condition is true is processed,
+the else-group if none is; groups of a skipped section are skipped.  `act` = the enclosing group is processed,
+`taken` = an earlier group of this section was processed. -/
+mutual
+def Item.incl (act : Bool) : Item → List Nat
+  | .text n => if act then [n] else []
+  | .sect c body tail => body.incl (act && c) ++ tail.incl act c
+def Items.incl (act : Bool) : Items → List Nat
+  | .nil => []
+  | .cons i r => i.incl act ++ r.incl act
+def Tail.incl (act taken : Bool) : Tail → List Nat
+  | .endif => []
+  | .els body => body.incl (act && !taken)
+  | .elif c body tail => body.incl (act && !taken && c) ++ tail.incl act (taken || c)
+end
+
 /-! ## createDUI / the `dui.defines` loop -/
 
 def splitOnChar (c : Char) (s : List Char) : List (List Char) := s.splitOn c
@@ -478,15 +541,30 @@ def afterEq : List Char → Option (List Char)
 
 /-- the `dui.defines` loop of simplecpp::preprocess: `name[(params)][=value]` becomes the macro `#define lhs rhs`,
 value `1` when there is no `=`; entries whose name is in `dui.undefined` are skipped -/
-def initMacros (defines : List (List Char)) (undefs : List Tok) : Except XErr (List Macro) :=
-  defines.foldlM (init := []) fun ms d =>
-    if undefs.contains (defName d) then .ok ms
-    else
-      let lhs := takeUntil (· == '=') d
-      let rhs := (afterEq d).getD ['1']
-      match parseDefine (lexLine (lhs ++ ' ' :: rhs)) with
-      | some m => .ok (define ms m)
-      | none => .error .badDefine
+def parseEntry (d : List Char) : Option Macro :=
+  parseDefine (lexLine (takeUntil (· == '=') d ++ ' ' :: (afterEq d).getD ['1']))
+
+def initStep (undefs : List Tok) (ms : List Macro) (d : List Char) : Except XErr (List Macro) :=
+  if undefs.contains (defName d) then .ok ms
+  else
+    match parseEntry d with
+    | some m => .ok (if (lookup ms m.name).isSome then ms else ms ++ [m])    -- unordered_map::insert keeps the first entry
+    | none => .error .badDefine
+
+def initFrom (undefs : List Tok) : List Macro → List (List Char) → Except XErr (List Macro)
+  | ms, [] => .ok ms
+  | ms, d :: r => match initStep undefs ms d with
+    | .ok ms' => initFrom undefs ms' r
+    | .error e => .error e
+
+def initMacros (defines : List (List Char)) (undefs : List Tok) : Except XErr (List Macro) := initFrom undefs [] defines
+
+/-- the entries of `dui.defines` name their macro by the text before `=` / `(` (true of every `-D` of the form
+`name[(params)][=value]`; an entry such as `A B=1` defines `A` but is looked up as `A B` in `dui.undefined`) -/
+def entriesOK (defines : List (List Char)) : Bool :=
+  defines.all fun d => match parseEntry d with
+    | some m => m.name == defName d
+    | none => true
 
 /-! ## the directive loop -/
 
@@ -527,6 +605,36 @@ def isDirective (l : List LTok) : Option (Tok × List LTok) :=
   | h :: d :: rest => if h.s == ['#'] && isName d.s then some (d.s, rest) else none
   | _ => none
 
+/-- the value of the condition of `#if/#ifdef/#ifndef/#elif` (`false` when it is not evaluated) -/
+def condOf (q : Quirks) (st : PState) (dn : Tok) (rest : List LTok) : Except XErr Bool :=
+  if !condEvaluated q st.ifs (dn == tokS "elif") then .ok false
+  else if dn == tokS "ifdef" then .ok (lookup st.macros ((rest.head?.map (·.s)).getD [])).isSome
+  else if dn == tokS "ifndef" then .ok (lookup st.macros ((rest.head?.map (·.s)).getD [])).isNone
+  else evalCond q st.macros (rest.map (·.s))
+
+/-- a directive line `# dn rest` -/
+def stepDirective (q : Quirks) (undefs : List Tok) (st : PState) (dn : Tok) (rest : List LTok) : Except XErr PState :=
+  if st.ifs.isEmpty && (dn == tokS "elif" || dn == tokS "else" || dn == tokS "endif") then .error .noIf
+  else if top st.ifs == .tru && dn == tokS "error" then .error .errorDirective
+  else if dn == tokS "define" then
+    if top st.ifs != .tru then .ok st
+    else match parseDefine rest with
+      | none => .error .badDefine
+      | some m => if undefs.contains m.name then .ok st else .ok { st with macros := define st.macros m }
+  else if dn == tokS "include" then (if top st.ifs == .tru then .error .unsupported else .ok st)
+  else if dn == tokS "if" || dn == tokS "ifdef" || dn == tokS "ifndef" || dn == tokS "elif" then
+    if rest.isEmpty then .error .syntax
+    else match condOf q st dn rest with
+      | .error e => .error e
+      | .ok c => .ok { st with ifs := if dn == tokS "elif" then ifElif st.ifs c else ifOpen st.ifs c }
+  else if dn == tokS "else" then .ok { st with ifs := ifElse st.ifs }
+  else if dn == tokS "endif" then .ok { st with ifs := st.ifs.tail }
+  else if dn == tokS "undef" then
+    match rest with
+    | x :: _ => if top st.ifs == .tru then .ok { st with macros := undefine st.macros x.s } else .ok st
+    | [] => .ok st
+  else .ok st
+
 def stepLine (q : Quirks) (undefs : List Tok) (st : PState) (line : List LTok) : Except XErr PState :=
   match line with
   | [] => .ok st
@@ -534,38 +642,7 @@ def stepLine (q : Quirks) (undefs : List Tok) (st : PState) (line : List LTok) :
     if h.s == ['#'] then
       match more with
       | [] => .ok st
-      | d :: rest =>
-        if !isName d.s then .ok st
-        else
-          let dn := d.s
-          if st.ifs.isEmpty && (dn == tokS "elif" || dn == tokS "else" || dn == tokS "endif") then .error .noIf
-          else if top st.ifs == .tru && dn == tokS "error" then .error .errorDirective
-          else if dn == tokS "define" then
-            if top st.ifs != .tru then .ok st
-            else match parseDefine rest with
-              | none => .error .badDefine
-              | some m => .ok (if undefs.contains m.name then st else { st with macros := define st.macros m })
-          else if dn == tokS "include" then (if top st.ifs == .tru then .error .unsupported else .ok st)
-          else if dn == tokS "if" || dn == tokS "ifdef" || dn == tokS "ifndef" || dn == tokS "elif" then
-            match rest with
-            | [] => .error .syntax
-            | x :: _ =>
-              let elif := dn == tokS "elif"
-              let c : Except XErr Bool :=
-                if !condEvaluated q st.ifs elif then .ok false
-                else if dn == tokS "ifdef" then .ok (lookup st.macros x.s).isSome
-                else if dn == tokS "ifndef" then .ok (lookup st.macros x.s).isNone
-                else evalCond q st.macros (rest.map (·.s))
-              match c with
-              | .error e => .error e
-              | .ok c => .ok { st with ifs := if elif then ifElif st.ifs c else ifOpen st.ifs c }
-          else if dn == tokS "else" then .ok { st with ifs := ifElse st.ifs }
-          else if dn == tokS "endif" then .ok { st with ifs := st.ifs.tail }
-          else if dn == tokS "undef" then
-            match rest with
-            | x :: _ => .ok (if top st.ifs == .tru then { st with macros := undefine st.macros x.s } else st)
-            | [] => .ok st
-          else .ok st
+      | d :: rest => if !isName d.s then .ok st else stepDirective q undefs st d.s rest
     else if top st.ifs != .tru then .ok st
     else
       match expand q st.macros [] (line.map fun t => ⟨t.s, false⟩) with
